@@ -8,8 +8,9 @@ Local Open Scope nat_scope.
 Fixpoint popped (ex : expr) : list string :=
   match ex with
   | EVar _ | EInt _ | ENone | EBool _ | EInf => []
-  | EBin _ a b | ECmp _ a b | EAnd a b | EOr a b | EIndex a b | EIn a b | EMax a b => popped a ++ popped b
-  | ENot a | EIsNone a | ELen a | EIntOf a | ESortedCol a _ | EDictValues a | ENeg a | EOracle _ a | EZeros a => popped a
+  | EBin _ a b | ECmp _ a b | EAnd a b | EOr a b | EIndex a b | EIn a b | EMax a b | EHstack a b | EFull a b => popped a ++ popped b
+  | ENot a | EIsNone a | ELen a | EIntOf a | ESortedCol a _ | EDictValues a | ENeg a | EOracle _ a | EZeros a
+  | EIsInst _ a | EDictKeys a | EMin a | EOnes a | EAsFloat a => popped a
   | EPop x k => x :: popped k
   | EList l => (fix go (l : list expr) : list string := match l with [] => [] | a :: t => popped a ++ go t end) l
   | EDictRange _ _ _ n => popped n
@@ -27,6 +28,7 @@ Fixpoint assigned (s : stmt) : list string :=
   | SForRange x n body => x :: popped n ++ assigned body
   | SForRows xs a body => xs ++ popped a ++ assigned body
   | SForEnum i x a body => i :: x :: popped a ++ assigned body
+  | SUnpack xs e => xs ++ popped e
   end.
 
 Lemma upd_other x y v (e : env) : x <> y -> upd x v e y = e y.
@@ -61,6 +63,13 @@ Section ExprInd.
   Context (Horacle : forall n a, P a -> P (EOracle n a)).
   Context (Hzeros : forall a, P a -> P (EZeros a)).
   Context (Hde : forall i x k v it, P k -> P v -> P it -> P (EDictEnum i x k v it)).
+  Context (Hinst : forall k a, P a -> P (EIsInst k a)).
+  Context (Hkeys : forall a, P a -> P (EDictKeys a)).
+  Context (Hmin : forall a, P a -> P (EMin a)).
+  Context (Hones : forall a, P a -> P (EOnes a)).
+  Context (Hasf : forall a, P a -> P (EAsFloat a)).
+  Context (Hhst : forall a b, P a -> P b -> P (EHstack a b)).
+  Context (Hfull : forall a b, P a -> P b -> P (EFull a b)).
 
   Fixpoint expr_ind' (ex : expr) : P ex :=
     match ex with
@@ -87,6 +96,13 @@ Section ExprInd.
     | EOracle n a => Horacle n a (expr_ind' a)
     | EZeros a => Hzeros a (expr_ind' a)
     | EDictEnum i x k v it => Hde i x k v it (expr_ind' k) (expr_ind' v) (expr_ind' it)
+    | EIsInst k a => Hinst k a (expr_ind' a)
+    | EDictKeys a => Hkeys a (expr_ind' a)
+    | EMin a => Hmin a (expr_ind' a)
+    | EOnes a => Hones a (expr_ind' a)
+    | EAsFloat a => Hasf a (expr_ind' a)
+    | EHstack a b => Hhst a b (expr_ind' a) (expr_ind' b)
+    | EFull a b => Hfull a b (expr_ind' a) (expr_ind' b)
     end.
 End ExprInd.
 
@@ -171,6 +187,28 @@ Proof.
     destruct va; try discriminate.
     match type of Hev with match ?t with _ => _ end = _ => destruct t; inversion Hev; subst end.
     apply (IHex3 _ _ _ E1). exact Hy.
+  - (* EIsInst *) destruct (eval ex e) as [[e2 va]|] eqn:E1; [|discriminate].
+    inversion Hev; subst. apply (IHex _ _ _ E1). exact Hy.
+  - (* EDictKeys *) destruct (eval ex e) as [[e2 va]|] eqn:E1; [|discriminate].
+    destruct va; inversion Hev; subst. apply (IHex _ _ _ E1). exact Hy.
+  - (* EMin *) destruct (eval ex e) as [[e2 va]|] eqn:E1; [|discriminate].
+    destruct va; try discriminate. destruct l as [|h t]; [discriminate|].
+    destruct h; try discriminate.
+    + destruct (min_q _ t); inversion Hev; subst. apply (IHex _ _ _ E1). exact Hy.
+    + destruct (min_q _ t); inversion Hev; subst. apply (IHex _ _ _ E1). exact Hy.
+  - (* EOnes *) destruct (eval ex e) as [[e2 va]|] eqn:E1; [|discriminate].
+    destruct va; inversion Hev; subst. apply (IHex _ _ _ E1). exact Hy.
+  - (* EAsFloat *) destruct (eval ex e) as [[e2 va]|] eqn:E1; [|discriminate].
+    destruct va; try discriminate. destruct (as_float l); inversion Hev; subst. apply (IHex _ _ _ E1). exact Hy.
+  - (* EHstack *) destruct (eval ex1 e) as [[e2 va]|] eqn:E1; [|discriminate].
+    destruct (eval ex2 e2) as [[e3 vb]|] eqn:E2; [|discriminate].
+    destruct va; try discriminate. destruct vb; inversion Hev; subst.
+    rewrite (IHex2 _ _ _ E2), (IHex1 _ _ _ E1); [reflexivity | |]; intros Hin; apply Hy; apply in_or_app; tauto.
+  - (* EFull *) destruct (eval ex1 e) as [[e2 va]|] eqn:E1; [|discriminate].
+    destruct va; try discriminate.
+    destruct (eval ex2 e2) as [[e3 vb]|] eqn:E2; [|discriminate].
+    destruct vb; inversion Hev; subst;
+      (rewrite (IHex2 _ _ _ E2), (IHex1 _ _ _ E1); [reflexivity | |]; intros Hin; apply Hy; apply in_or_app; tauto).
 Qed.
 
 Lemma for_range_frame (f : Z -> env -> pres env) x :
@@ -210,7 +248,7 @@ Qed.
 
 Theorem exec_frame : forall s (en en' : env), exec s en = POk en' -> forall y, ~ In y (assigned s) -> en' y = en y.
 Proof.
-  induction s as [| s1 IHs1 s2 IHs2 | x ex | x ex | x k v | x ex | c s1 IHs1 s2 IHs2 | x n s IHs | xs a s IHs | i x a s IHs | er];
+  induction s as [| s1 IHs1 s2 IHs2 | x ex | x ex | x k v | x ex | c s1 IHs1 s2 IHs2 | x n s IHs | xs a s IHs | i x a s IHs | xs ex | er];
     intros en en' H y Hy; cbn [exec assigned] in *.
   - inversion H; subst; reflexivity.
   - destruct (exec s1 en) as [e1|] eqn:E1; [|discriminate].
@@ -234,7 +272,7 @@ Proof.
         rewrite upd_other by (intros E; apply Hy; left; exact E). exact F.
       * inversion H; subst. rewrite upd_other by (intros E; apply Hy; left; exact E). exact F.
     + destruct (e2 x) as [vx|]; [|discriminate]. destruct vx; try discriminate.
-      destruct (fancy_set l0 l vv); inversion H; subst.
+      match type of H with match ?t with _ => _ end = _ => destruct t; inversion H; subst end.
       rewrite upd_other by (intros E; apply Hy; left; exact E). exact F.
   - destruct (eval ex en) as [[e1 v]|] eqn:E1; [|discriminate].
     destruct (e1 x) as [vx|]; [|discriminate]. destruct vx; inversion H; subst.
@@ -268,5 +306,9 @@ Proof.
     intros p r ea eb Hb. rewrite (IHs _ _ Hb) by (intros Hin; apply Hy; right; right; apply in_or_app; tauto).
     rewrite upd_other by (intros E; apply Hy; right; left; exact E).
     apply upd_other. intros E. apply Hy. left. exact E.
+  - destruct (eval ex en) as [[e1 v]|] eqn:E1; [|discriminate].
+    destruct v; try discriminate. destruct (bind_all xs l e1) as [e2|] eqn:Eb; inversion H; subst.
+    rewrite (bind_all_frame _ _ _ _ _ Eb) by (intros Hin; apply Hy; apply in_or_app; tauto).
+    apply (eval_frame _ _ _ _ E1). intros Hin. apply Hy. apply in_or_app. tauto.
   - discriminate.
 Qed.
